@@ -2,7 +2,7 @@ SPECIFICATION Spec
 CONSTANTS
   Mode = "mc"
   MaxNodes = 5
-  Enabled = {"Module", "Fn", "Len", "Str", "Idx", "Mem", "Int"}
+  Enabled = {"Module", "Fn", "Len", "Idx", "Mem", "Int"}
   FlagSets <- FlagSets_none
   VarForms <- VarForms_init
   FnNames = {"f"}
@@ -19,7 +19,7 @@ CONSTANTS
   Files <- Files_one
   IntLits <- IntLits_one
   CharLits <- CharLits_one
-  StrLits <- StrLits_endq
+  StrLits <- StrLits_one
   ArrayLens <- ArrayLens_one
   AddOps = {"+"}
   MulOps = {"*"}
